@@ -70,9 +70,11 @@ def generate_mesh(vertices, edges, cells, ne=4, **kwargs):
             alreadySeen.append(e)
             # if edge has only 2 vertices, join them 
             # TODO: Make it work with polygonal vertex model
+            # only edges of the outline: an edge shared by two cells is their whole interface
             if (len(e) == 2 and
                 len(vertices[e[0]].ownCells) < 3 and
-                len(vertices[e[1]].ownCells) < 3):
+                len(vertices[e[1]].ownCells) < 3 and
+                len(set(vertices[e[0]].ownCells) & set(vertices[e[1]].ownCells)) < 2):
                 vertices_to_join.append(e)
 
     vertexToRemove = []
